@@ -45,6 +45,9 @@ ASSUMPTIONS = [
     "when the tree has more than one node",
     "NJ is driven with binary generating trees whose internal (and, except in the stated zero-pendant layer, pendant) "
     "lengths are positive; ties among Q values are the library's business (any choice is a cherry of an additive matrix)",
+    "the iteration order of PhylogeneticDistanceMatrix._mapped_taxa (a set of id-hashed taxa = order of the NJ/UPGMA node "
+    "pool and of the CSV rows) is treated as environment: the harness fixes it through a set subclass with a defined "
+    "iteration order and enumerates it (all orders n <= 4; as-is, reversed and rotations above)",
     "UPGMA on ultrametric input is driven with distinct node heights (no ties); the textbook-definition layer on "
     "non-ultrametric input skips inputs in which the exact (Fraction) reference meets a tie",
     "CSV round trips are written with is_normalize_by_tree_size=False (the signature default of write_csv divides by the "
@@ -613,6 +616,43 @@ def check_mrca_start(case, ctx):
 # ---------------------------------------------------------------------------
 # layer NJ / UPGMA
 
+class OrderedTaxa(set):
+    """PhylogeneticDistanceMatrix._mapped_taxa is a set of id-hashed Taxon objects: its
+    iteration order (= the order of the NJ / UPGMA node pool, hence every tie-break, and the
+    row order of write_csv) differs from process to process.  It is the environment of
+    nj_tree / upgma_tree; the harness fixes it explicitly and enumerates it (all orders for
+    n <= 4) so that verdicts and replays do not depend on memory addresses."""
+
+    def __init__(self, seq):
+        seq = list(seq)
+        set.__init__(self, seq)
+        self._seq = seq
+
+    def __iter__(self):
+        return iter(self._seq)
+
+
+def force_order(V, pdm, order, where):
+    tx = taxa_of(pdm.taxon_namespace)
+    want = [tx[l] for l in order if l in tx]
+    if len(want) != len(order) or set(pdm._mapped_taxa) != set(want):
+        V("pdm|mapped-taxa|%s" % where, "matrix maps taxa %r, tree has %r" % (sorted(t._label for t in pdm._mapped_taxa), sorted(order)))
+        return False
+    pdm._mapped_taxa = OrderedTaxa(want)
+    return True
+
+
+def pool_orders(labels, mode):
+    labels = list(labels)
+    if mode == "all":
+        return [list(p) for p in itertools.permutations(labels)]
+    out = [labels, labels[::-1]]
+    if mode == "rot":
+        for k in range(1, len(labels)):
+            out.append(labels[k:] + labels[:k])
+    return out
+
+
 CSV_ROUTES = [
     # (tag, write kwargs, read kwargs, reuse the tree's namespace)
     ("csv", {}, {}, True),
@@ -623,18 +663,26 @@ CSV_ROUTES = [
 ]
 
 
-def via_csv(V, pdm, ns, route):
+def via_csv(V, pdm, ns, route, labels):
     tag, wkw, rkw, reuse = route
+    if not force_order(V, pdm, labels, "from_tree"):
+        return None
     buf = io.StringIO()
     ok, _ = call(V, "pdm.write_csv|%s" % tag, pdm.write_csv, buf, is_normalize_by_tree_size=False, **wkw)
     if not ok:
         return None
-    src = io.StringIO(buf.getvalue())
+    text = buf.getvalue()
+    if "delimiter" in wkw and len(labels) >= 2 and wkw["delimiter"] not in text:
+        V("pdm.write_csv|delimiter-ignored", "write_csv(delimiter=%r) wrote %r" % (wkw["delimiter"], text[:60]))
+        return None
+    src = io.StringIO(text)
     kw = dict(rkw)
     if reuse:
         kw["taxon_namespace"] = ns
     ok, p2 = call(V, "pdm.from_csv|%s" % tag, PhylogeneticDistanceMatrix.from_csv, src, **kw)
     if not ok:
+        return None
+    if not force_order(V, p2, labels, "from_csv"):
         return None
     return p2
 
@@ -705,27 +753,32 @@ def check_nj(case, ctx):
         return 1
     want, _ = ref.split_lengths(sn, False)
     refd = dict(((a, b2), R.between(R.leafpath[a], R.leafpath[b2])[0]) for a in labels for b2 in labels)
-    q += 1
-    ok, t2 = call(V, "pdm.nj_tree", pdm.nj_tree)
-    if ok:
-        judge_nj(V, t2, "direct", labels, want, text)
-    if case.get("unweighted"):
-        unit = ref.mk(shape, lens=[None] + [1] * (nnodes(shape) - 1))
-        wu, _ = ref.split_lengths(unit, False)
+    unit = ref.mk(shape, lens=[None] + [1] * (nnodes(shape) - 1))
+    wu, _ = ref.split_lengths(unit, False)
+    for order in pool_orders(labels, case.get("orders", "basic")):
+        if not force_order(V, pdm, order, "from_tree"):
+            break
         q += 1
-        ok, t2 = call(V, "pdm.nj_tree|unweighted", pdm.nj_tree, is_weighted_edge_distances=False)
+        ok, t2 = call(V, "pdm.nj_tree", pdm.nj_tree)
         if ok:
-            judge_nj(V, t2, "edge-counts", labels, wu, ref.to_newick(unit))
+            judge_nj(V, t2, "direct", labels, want, text)
+        if case.get("unweighted"):
+            q += 1
+            ok, t2 = call(V, "pdm.nj_tree|unweighted", pdm.nj_tree, is_weighted_edge_distances=False)
+            if ok:
+                judge_nj(V, t2, "edge-counts", labels, wu, ref.to_newick(unit))
     for ri in case.get("csv", []):
         route = CSV_ROUTES[ri]
-        p2 = via_csv(V, pdm, ns, route)
+        p2 = via_csv(V, pdm, ns, route, labels)
         if p2 is None:
             continue
         q += check_matrix_readback(V, p2, route[0], labels, refd, True, text)
-        q += 1
-        ok, t2 = call(V, "pdm.nj_tree|%s" % route[0], p2.nj_tree)
-        if ok:
-            judge_nj(V, t2, route[0], labels, want, text)
+        for order in pool_orders(labels, "basic"):
+            force_order(V, p2, order, "from_csv")
+            q += 1
+            ok, t2 = call(V, "pdm.nj_tree|%s" % route[0], p2.nj_tree)
+            if ok:
+                judge_nj(V, t2, route[0], labels, want, text)
     return q
 
 
@@ -833,19 +886,25 @@ def check_upgma(case, ctx):
     if not ok:
         return 1
     refd = dict(((a, b2), R.between(R.leafpath[a], R.leafpath[b2])[0]) for a in labels for b2 in labels)
-    ok, t2 = call(V, "pdm.upgma_tree", pdm.upgma_tree)
-    if ok:
-        judge_upgma(V, t2, "direct", labels, want, exact, text)
+    for order in pool_orders(labels, case.get("orders", "basic")):
+        if not force_order(V, pdm, order, "from_tree"):
+            break
+        q += 1
+        ok, t2 = call(V, "pdm.upgma_tree", pdm.upgma_tree)
+        if ok:
+            judge_upgma(V, t2, "direct", labels, want, exact, text)
     for ri in case.get("csv", []):
         route = CSV_ROUTES[ri]
-        p2 = via_csv(V, pdm, ns, route)
+        p2 = via_csv(V, pdm, ns, route, labels)
         if p2 is None:
             continue
         q += check_matrix_readback(V, p2, route[0], labels, refd, True, text)
-        q += 1
-        ok, t2 = call(V, "pdm.upgma_tree|%s" % route[0], p2.upgma_tree)
-        if ok:
-            judge_upgma(V, t2, route[0], labels, want, exact, text)
+        for order in pool_orders(labels, "basic"):
+            force_order(V, p2, order, "from_csv")
+            q += 1
+            ok, t2 = call(V, "pdm.upgma_tree|%s" % route[0], p2.upgma_tree)
+            if ok:
+                judge_upgma(V, t2, route[0], labels, want, exact, text)
     return q
 
 
@@ -889,29 +948,33 @@ def check_upgma_def(case, ctx):
     ok, pdm = call(V, "Tree.phylogenetic_distance_matrix", tree.phylogenetic_distance_matrix)
     if not ok:
         return 1
-    ok, t2 = call(V, "pdm.upgma_tree", pdm.upgma_tree)
-    if not ok:
-        return 1
-    probs = ref.wellformed(t2)
-    if probs:
-        V("upgma_tree|malformed|definition", "; ".join(probs))
-        return 1
-    s2 = ref.snapshot(t2)[1]
-    if ref.rooted_clades(s2) != set(want):
-        V("upgma_tree|definition|clades", "UPGMA of the distances of %s gives %s; size-weighted average linkage gives clades %s" % (
-            ref.to_newick(sn), ref.to_newick(s2), sorted(sorted(c) for c in want)))
-        return 1
-    # height of a clade = distance from its node to the tips through its first child chain (each child separately)
-    hs = heights_of(s2)
-    for cl, h in want.items():
-        got = hs[cl]
-        if h == 0:
+    q = 0
+    for order in pool_orders(labels, "all" if len(labels) <= 4 else "basic"):
+        if not force_order(V, pdm, order, "from_tree"):
+            break
+        q += 1
+        ok, t2 = call(V, "pdm.upgma_tree", pdm.upgma_tree)
+        if not ok:
             continue
-        if not isinstance(got, list) or not all(same(g, float(h), False) for g in got):
-            V("upgma_tree|definition|node-height", "UPGMA of the distances of %s gives %s: clade %s at %r, average linkage joins it at %r" % (
-                ref.to_newick(sn), ref.to_newick(s2), sorted(cl), got, float(h)))
-            return 1
-    return 1
+        probs = ref.wellformed(t2)
+        if probs:
+            V("upgma_tree|malformed|definition", "; ".join(probs))
+            continue
+        s2 = ref.snapshot(t2)[1]
+        if ref.rooted_clades(s2) != set(want):
+            V("upgma_tree|definition|clades", "UPGMA of the distances of %s gives %s; size-weighted average linkage gives clades %s" % (
+                ref.to_newick(sn), ref.to_newick(s2), sorted(sorted(c) for c in want)))
+            continue
+        hs = heights_of(s2)
+        for cl, h in want.items():
+            got = hs[cl]
+            if h == 0:
+                continue
+            if not isinstance(got, list) or not all(same(g, float(h), False) for g in got):
+                V("upgma_tree|definition|node-height", "UPGMA of the distances of %s gives %s: clade %s at %r, average linkage joins it at %r" % (
+                    ref.to_newick(sn), ref.to_newick(s2), sorted(cl), got, float(h)))
+                break
+    return max(q, 1)
 
 
 # ---------------------------------------------------------------------------
@@ -1036,47 +1099,60 @@ def run_mrca(chunk, ctx):
 
 
 def nj_lengths(shape, n, b):
-    """[(tag, lens, unweighted?, csv routes)]"""
+    """[(tag, lens, unweighted?, csv routes, node-pool orders)]"""
     k = nnodes(shape)
     out = []
+    leaf_idx = []
+    i = [0]
+
+    def rec(s):
+        me = i[0]
+        i[0] += 1
+        if isinstance(s, int):
+            leaf_idx.append(me)
+        else:
+            for c in s:
+                rec(c)
+    rec(shape)
+    internal = [j for j in range(1, k) if j not in leaf_idx]
+
+    def assign(pa, ia):
+        lens = [None] * k
+        for j, v in zip(leaf_idx, pa):
+            lens[j] = v
+        for j, v in zip(internal, ia):
+            lens[j] = v
+        return lens
     if n <= b["nj_all_12_lengths_up_to"]:
-        for i, a in enumerate(itertools.product((1, 2), repeat=k - 1)):
+        # every assignment from {1,2}
+        for i2, a in enumerate(itertools.product((1, 2), repeat=k - 1)):
             lens = [None] + list(a)
             csv = []
-            if i == 0 or i == 2 ** (k - 1) - 1:
+            if i2 == 0 or i2 == 2 ** (k - 1) - 1:
                 csv = list(range(len(CSV_ROUTES)))
-            elif n <= 4 or i % 16 == 5:
+            elif n <= 4 or i2 % 16 == 5:
                 csv = [0]
-            out.append(("x12", lens, i == 0, csv))
+            out.append(("x12", lens, i2 == 0, csv, "all" if n <= 4 else ("rot" if i2 % 8 == 3 else "basic")))
+        # long pendant edges next to short ones (what a wrong Q criterion trips over): pendant {1,8} x internal {1,2}
+        for i2, pa in enumerate(itertools.product((1, 8), repeat=len(leaf_idx))):
+            if 8 not in pa:
+                continue
+            for ia in itertools.product((1, 2), repeat=len(internal)):
+                out.append(("x18", assign(pa, ia), False, [0] if i2 % 8 == 5 else [], "all" if n <= 4 else "basic"))
     else:
-        out.append(("unit", [None] + [1] * (k - 1), True, [0]))
-        out.append(("cyc123", [None] + [[1, 2, 3][i % 3] for i in range(1, k)], False, [0, 2]))
-        out.append(("quarters", [None] + [1 + (i % 4) / 4.0 for i in range(1, k)], False, []))
+        out.append(("unit", [None] + [1] * (k - 1), True, [0], "rot"))
+        out.append(("cyc123", [None] + [[1, 2, 3][j % 3] for j in range(1, k)], False, [0, 2], "rot"))
+        out.append(("quarters", [None] + [1 + (j % 4) / 4.0 for j in range(1, k)], False, [], "basic"))
+        for ph in (0, 1):
+            out.append(("long-short-%d" % ph, assign([8 if (x + ph) % 2 else 1 for x in range(len(leaf_idx))], [1] * len(internal)), False, [], "basic"))
+        out.append(("long-short-3", assign([1 if x % 3 == 2 else 8 for x in range(len(leaf_idx))], [1] * len(internal)), False, [], "basic"))
     # zero-length pendant edges (internal lengths stay positive)
     if n <= 4:
-        leaf_idx = []
-        i = [0]
-
-        def rec(s):
-            me = i[0]
-            i[0] += 1
-            if isinstance(s, int):
-                leaf_idx.append(me)
-            else:
-                for c in s:
-                    rec(c)
-        rec(shape)
-        internal = [j for j in range(1, k) if j not in leaf_idx]
         for pa in itertools.product((0, 1), repeat=len(leaf_idx)):
             if 0 not in pa:
                 continue
             for ia in itertools.product((1, 2), repeat=len(internal)):
-                lens = [None] * k
-                for j, v in zip(leaf_idx, pa):
-                    lens[j] = v
-                for j, v in zip(internal, ia):
-                    lens[j] = v
-                out.append(("zero-pendant", lens, False, []))
+                out.append(("zero-pendant", assign(pa, ia), False, [], "all"))
     return out
 
 
@@ -1086,13 +1162,13 @@ def run_nj(chunk, ctx):
     shapes = U.shapes(n, True)
     for si in range(chunk["lo"], chunk["hi"]):
         shape = shapes[si]
-        for tag, lens, unweighted, csv in nj_lengths(shape, n, b):
-            # a zero-length pendant edge next to the basal bifurcation is fine; a cherry of two zero pendants gives d=0
-            case = {"kind": "nj", "n": n, "shape": shape, "lens": lens, "rooted": False, "unweighted": unweighted, "csv": csv, "ltag": tag}
+        for tag, lens, unweighted, csv, orders in nj_lengths(shape, n, b):
+            case = {"kind": "nj", "n": n, "shape": shape, "lens": lens, "rooted": False, "unweighted": unweighted, "csv": csv,
+                    "ltag": tag, "orders": orders}
             q = check_nj(case, ctx)
             ctx.case(("nj", shape, tuple(lens)), n >= 3, n=q)
             ctx.count("nj_generating_trees")
-            ctx.count("nj_runs", 1 + (1 if unweighted else 0) + len(csv))
+            ctx.count("nj_runs", len(pool_orders(U.LABELS[:n], orders)) * (2 if unweighted else 1) + 2 * len(csv))
             ctx.count("csv_round_trips", len(csv))
         ctx.sample({"layer": "NJ", "generating_tree": ref.to_newick(ref.mk(shape, lens=[None] + [[1, 2][i % 2] for i in range(nnodes(shape) - 1)])),
                     "length_assignments": len(nj_lengths(shape, n, b))}, 1)
@@ -1116,11 +1192,12 @@ def run_upgma(chunk, ctx):
                     csv = [0]
                 else:
                     csv = []
-                case = {"kind": "upgma", "n": n, "shape": shape, "ranks": ranks, "hpat": hpat, "csv": csv}
+                orders = "all" if n <= 4 else ("rot" if hpat == "int" and n <= 5 else "basic")
+                case = {"kind": "upgma", "n": n, "shape": shape, "ranks": ranks, "hpat": hpat, "csv": csv, "orders": orders}
                 q = check_upgma(case, ctx)
                 ctx.case(("upgma", shape, tuple(ranks), hpat), n >= 3, n=q)
                 ctx.count("upgma_ranked_trees")
-                ctx.count("upgma_runs", 1 + len(csv))
+                ctx.count("upgma_runs", len(pool_orders(U.LABELS[:n], orders)) + 2 * len(csv))
                 ctx.count("csv_round_trips", len(csv))
         ctx.sample({"layer": "UPGMA", "generating_tree": ref.to_newick(ultrametric_snapshot(shape, rks[0], "int")), "rankings": len(rks)}, 1)
     return None
